@@ -99,6 +99,14 @@ def observe(case):
         add("identity", n, 0, lambda: E.halve(E.multiply(n, 2, ctx), ctx))
         add("square", n, 0, lambda: E.square(n, ctx)) if n < 40000 else None
         add("digitsum", n, 0, lambda: E.vy_sum(n, ctx))
+        if n < 10 ** 9:
+            add("reversed-number", n, 0, lambda: E.reverse(n, ctx))
+        if n < 10 ** 6 or "0" in str(n):
+            add("digitproduct", n, 0, lambda: E.product(E.deep_flatten(n, ctx), ctx))
+        if n <= 300:
+            add("product-0-n", n, 0, lambda: E.product(E.inclusive_zero_range(n, ctx), ctx))
+        if 1 <= n <= 12:
+            add("product-1-n", n, 0, lambda: E.product(E.inclusive_one_range(n, ctx), ctx))
         add("digits", n, 0, lambda: E.deep_flatten(n, ctx), "s")
         add("issquare", n, 0, lambda: E.is_square(n, ctx))
         if n <= 400 and n % 3 == 0:
